@@ -291,6 +291,13 @@ fn proj<E: Probe, I: Iterator<Item = E> + Clone>(it: &I) -> String {
         Err(_) => "[-1]".to_string(),
     }
 }
+/// (len, size_hint.0, size_hint.1) with panics as data (-1)
+fn obs<E, I: Iterator<Item = E> + ExactSizeIterator>(it: &I) -> (i64, i64, i64) {
+    match catch(|| { let sh = it.size_hint(); (it.len() as i64, sh.0 as i64, sh.1.map(|x| x as i64).unwrap_or(-1)) }) {
+        Ok(t) => t,
+        Err(_) => (-1, -1, -1),
+    }
+}
 #[derive(Clone, Copy)]
 pub enum ItOp { Next, NextBack, Nth(usize, bool), NthBack(usize, bool) }
 fn op_name(op: ItOp) -> (&'static str, usize, bool, &'static str) {
@@ -317,8 +324,7 @@ where I: Iterator<Item = E> + DoubleEndedIterator + ExactSizeIterator + Clone {
 fn log_op<E: Probe, I>(o: &mut Out, def: u32, prof: &str, from: i64, h: u32, op: ItOp, r: &Result<usize, String>, it: &I)
 where I: Iterator<Item = E> + DoubleEndedIterator + ExactSizeIterator + Clone {
     let (name, n, big, bigk) = op_name(op);
-    let (len, lo, hi) = match catch(|| { let sh = it.size_hint(); (it.len() as i64, sh.0 as i64, sh.1.map(|x| x as i64).unwrap_or(-1)) }) {
-        Ok(t) => t, Err(_) => (-1, -1, -1) };
+    let (len, lo, hi) = obs(it);
     o.line(&format!("{{\"op\":\"it\",\"def\":{},\"prof\":\"{}\",\"call\":\"{}\",\"from\":{},\"h\":{},\"n\":{},\"big\":{},\"bigk\":\"{}\",\"res\":{},\"panic\":{},\"len\":{},\"lo\":{},\"hi\":{},\"rest\":{}}}",
         def, prof, name, from, h, n, jbool(big), bigk, r.as_ref().map(|x| *x as i64).unwrap_or(-1), jbool(r.is_err()), len, lo, hi, proj(it)));
 }
@@ -330,9 +336,9 @@ pub fn it_args(n_enabled: usize) -> Vec<ItOp> {
 }
 fn log_new<E: Probe, I>(o: &mut Out, def: u32, prof: &str, h: u32, it: &I)
 where I: Iterator<Item = E> + DoubleEndedIterator + ExactSizeIterator + Clone {
-    let sh = it.size_hint();
-    o.line(&format!("{{\"op\":\"it\",\"def\":{},\"prof\":\"{}\",\"call\":\"new\",\"from\":-1,\"h\":{},\"n\":0,\"big\":false,\"bigk\":\"\",\"res\":0,\"panic\":false,\"len\":{},\"lo\":{},\"hi\":{},\"rest\":{}}}",
-        def, prof, h, it.len(), sh.0, sh.1.map(|x| x as i64).unwrap_or(-1), proj(it)));
+    let (len, lo, hi) = obs(it);
+    o.line(&format!("{{\"op\":\"it\",\"def\":{},\"prof\":\"{}\",\"call\":\"new\",\"from\":-1,\"h\":{},\"n\":0,\"big\":false,\"bigk\":\"\",\"res\":0,\"panic\":{},\"len\":{},\"lo\":{},\"hi\":{},\"rest\":{}}}",
+        def, prof, h, jbool(len < 0), len, lo, hi, proj(it)));
 }
 /// every operation sequence up to `depth`: each tree edge = clone the parent state into handle `level`, apply one call
 pub fn iter_dfs<E: Probe, I>(o: &mut Out, def: u32, prof: &str, n_enabled: usize, root: I, depth: usize)
@@ -365,8 +371,9 @@ where I: Iterator<Item = E> + DoubleEndedIterator + ExactSizeIterator + Clone {
         if choice == 0 && !free.is_empty() {
             let b = free[0];
             let c = hs[a].as_ref().unwrap().clone();
-            o.line(&format!("{{\"op\":\"it\",\"def\":{},\"prof\":\"{}\",\"call\":\"clone\",\"from\":{},\"h\":{},\"n\":0,\"big\":false,\"bigk\":\"\",\"res\":0,\"panic\":false,\"len\":{},\"lo\":{},\"hi\":{},\"rest\":{}}}",
-                def, prof, 10 + a, 10 + b, c.len(), c.size_hint().0, c.size_hint().1.map(|x| x as i64).unwrap_or(-1), proj(&c)));
+            let (len, lo, hi) = obs(&c);
+            o.line(&format!("{{\"op\":\"it\",\"def\":{},\"prof\":\"{}\",\"call\":\"clone\",\"from\":{},\"h\":{},\"n\":0,\"big\":false,\"bigk\":\"\",\"res\":0,\"panic\":{},\"len\":{},\"lo\":{},\"hi\":{},\"rest\":{}}}",
+                def, prof, 10 + a, 10 + b, jbool(len < 0), len, lo, hi, proj(&c)));
             hs[b] = Some(c);
         } else if choice == 1 && live.len() > 1 {
             hs[a] = None;
